@@ -116,6 +116,7 @@ func (s *streamer) joinStream() *stream {
 	s.charged = s.charged[:l-1]
 	verifTrace("st.pop", uint64(stream.streamID), verifStreamKey(stream))
 	s.chargedMu.Unlock()
+	verifGate("st.join", uint64(stream.streamID), verifStreamKey(stream))
 	stream.attach()
 
 	return stream
